@@ -558,7 +558,7 @@ func (c *c20gChild) probe(n int) string {
 }
 
 func runC20G(run *common.Run) {
-	run.Rule = "GCS half of C20, emulator in child processes built with the race detector (memory and file store). Part 'fuzz': case = one hostile HTTP request - a valid template of every endpoint (bucket create/get/delete, media / multipart / resumable upload incl. chunk PUT/POST and status query, metadata GET, media GET in three URL forms incl. an object whose metadata says gzip but whose bytes are not, list, patch, delete, compose with source preconditions, rewrite, batch) perturbed structurally (parameters dropped / duplicated / junk / negative / huge, path segments dropped / duplicated / appended, bodies truncated, JSON type confusion incl. null sub-objects, multipart without boundary / one part / unterminated, Content-Range garbage, gzip header on non-gzip body, hostile proxy headers, unknown upload ids, damaged batch bodies) or at byte level on a raw TCP stream (bit flips, truncation, insertion, deletion incl. the HTTP framing) - followed by a probe (stored object intact, new upload + read succeed). Well-formed batches of 0-5 parts: one sub-response per part, each equal to the same request sent alone. Part 'mix': rounds of concurrent traffic (listing while deleting, same-name uploads/patches/deletes, bucket delete during uploads, concurrent chunks on one upload id, copies and composes in opposite directions over one pair of objects). Monitors: child exit, 'http: panic serving' / panic / fatal text on its stderr, race-detector reports with a frame in the emulator, a complete HTTP response, JSON bodies parse, error statuses produced by the emulator carry the {error:{code,message}} envelope with code == status, request hang (client watchdog 60 s), probe. Non-trivial = case answered with a 4xx/5xx (fuzz) / well-formed batch with >= 2 parts / mix round; distinct by case."
+	run.Rule = "GCS half of C20, emulator in child processes built with the race detector (memory and file store). Part 'fuzz': case = one hostile HTTP request - a valid template of every endpoint (bucket create/get/delete, media / multipart / resumable upload incl. chunk PUT/POST and status query, metadata GET, media GET in three URL forms incl. an object whose metadata says gzip but whose bytes are not, list, patch, delete, compose with source preconditions, rewrite, batch) perturbed structurally (parameters dropped / duplicated / junk / negative / huge, path segments dropped / duplicated / appended, bodies truncated, JSON type confusion incl. null sub-objects, multipart without boundary / one part / unterminated, Content-Range garbage, gzip header on non-gzip body, hostile proxy headers, unknown upload ids, damaged batch bodies) or at byte level on a raw TCP stream (bit flips, truncation, insertion, deletion incl. the HTTP framing) - followed by a probe (stored object intact, new upload + read succeed). Well-formed batches of 0-5 parts: one sub-response per part, each equal to the same request sent alone. Part 'mix': rounds of concurrent traffic (listing while deleting, same-name uploads/patches/deletes, bucket delete during uploads, concurrent chunks on one upload id, copies and composes in opposite directions over one pair of objects). Part 'stall': for every body-carrying endpoint a client sends the head and 0, 1, half or all-but-one bytes of the body and goes quiet; meanwhile eleven valid GETs of a second client (objects and bucket the stalled request names, listing) must be answered; then the body is completed and the stalled request must be answered too. Monitors: child exit, 'http: panic serving' / panic / fatal text on its stderr, race-detector reports with a frame in the emulator, a complete HTTP response, JSON bodies parse, error statuses produced by the emulator carry the {error:{code,message}} envelope with code == status, request hang (client watchdog 60 s), probe. Non-trivial = case answered with a 4xx/5xx (fuzz) / well-formed batch with >= 2 parts / mix round; distinct by case."
 	run.Assumptions = []string{"net/http recovers handler panics per connection, so they are observed as 'http: panic serving' on the child's stderr plus a dropped connection", "raw byte streams that are not an HTTP request may be answered by closing the connection"}
 	scratch, err := os.MkdirTemp("", "verif-c20g-")
 	if err != nil {
@@ -574,6 +574,9 @@ func runC20G(run *common.Run) {
 	}
 	if run.WantSub("mix") && !run.TooMany() {
 		c20gMix(run, scratch)
+	}
+	if run.WantSub("stall") && !run.TooMany() {
+		c20gStall(run, scratch)
 	}
 	run.ScanRaceLogs("github.com/fullstorydev/emulators/storage")
 }
@@ -775,6 +778,152 @@ func c20gFuzz(run *common.Run, scratch string) {
 				}
 			}
 		}(sh)
+	}
+	wg.Wait()
+}
+
+// c20gStall: a client that sends the head of a request and only part of its body, and then goes quiet, must not keep
+// other clients' requests from being answered. For every body-carrying endpoint: open a connection, send the head
+// (with the full Content-Length) and the first k bytes of the body; while it is quiet, a second client sends valid
+// requests for the objects and the bucket the stalled request names (metadata GET, media GET, listing, bucket GET);
+// then the rest of the body is sent and the stalled request must be answered normally. A victim is "kept waiting" only
+// if it got no answer within the watchdog while the other client was quiet AND is answered once that client resumed.
+func c20gStall(run *common.Run, scratch string) {
+	const watchdog = 25 * time.Second
+	var wg sync.WaitGroup
+	for ki, kind := range drive.Stores {
+		wg.Add(1)
+		go func(ki int, kind string) {
+			defer wg.Done()
+			ch, msg := c20gStart(fmt.Sprintf("st%d", ki), kind, scratch)
+			if ch == nil {
+				run.Violation("stall", ki, "cannot start child: "+msg, nil)
+				return
+			}
+			defer func() { ch.stop() }()
+			if m := ch.fixture(); m != "" {
+				run.Violation("stall", ki, m, nil)
+				return
+			}
+			_, uploadID, _ := ch.cl.ResumableInit(c20gB, []byte(`{"name":"res-live.bin"}`), nil, "")
+			victims := []string{
+				"/storage/v1/b/" + c20gB + "/o/a.txt",
+				"/storage/v1/b/" + c20gB + "/o/a.txt?alt=media",
+				"/storage/v1/b/" + c20gB + "/o/dir%2Fb.txt",
+				"/storage/v1/b/" + c20gB + "/o/composed.txt",
+				"/storage/v1/b/" + c20gB + "/o/copy%2Fof-a.txt",
+				"/storage/v1/b/" + c20gB + "/o/m.txt",
+				"/storage/v1/b/" + c20gB + "/o/mp.txt",
+				"/storage/v1/b/" + c20gB + "/o/res-live.bin",
+				"/storage/v1/b/" + c20gB + "/o",
+				"/storage/v1/b/" + c20gB,
+				"/storage/v1/b/fzb2",
+			}
+			ti := 0
+			for _, t := range c20gTemplates(nil, uploadID) {
+				if len(t.Body) < 2 {
+					continue
+				}
+				for _, cut := range []int{0, 1, len(t.Body) / 2, len(t.Body) - 1} {
+					idx := (ki*100+ti)*10 + cut%10
+					ti++
+					if !run.Want("stall", idx) || run.TooMany() {
+						continue
+					}
+					desc := fmt.Sprintf("store=%s stalled request: %s %s after %d of %d body bytes", kind, t.Method, t.Target, cut, len(t.Body))
+					conn, err := net.DialTimeout("tcp", ch.addr, 10*time.Second)
+					if err != nil {
+						run.Violation("stall", idx, "dial: "+err.Error(), nil)
+						return
+					}
+					var head bytes.Buffer
+					fmt.Fprintf(&head, "%s %s HTTP/1.1\r\nHost: %s\r\nContent-Length: %d\r\n", t.Method, t.Target, ch.addr, len(t.Body))
+					for _, h := range t.Hdr {
+						fmt.Fprintf(&head, "%s: %s\r\n", h[0], h[1])
+					}
+					head.WriteString("\r\n")
+					head.Write(t.Body[:cut])
+					_, _ = conn.Write(head.Bytes())
+					time.Sleep(30 * time.Millisecond) // let the server start on the request; not a verdict
+					type vres struct {
+						target string
+						status int
+						err    error
+					}
+					resCh := make(chan vres, len(victims))
+					for _, v := range victims {
+						go func(v string) {
+							hc := &http.Client{Timeout: watchdog, Transport: &http.Transport{DisableKeepAlives: true}}
+							rsp, err := hc.Get("http://" + ch.addr + v)
+							if err != nil {
+								resCh <- vres{v, 0, err}
+								return
+							}
+							_, _ = io.Copy(io.Discard, rsp.Body)
+							rsp.Body.Close()
+							resCh <- vres{v, rsp.StatusCode, nil}
+						}(v)
+					}
+					var waiting []string
+					for range victims {
+						r := <-resCh
+						if r.err != nil {
+							waiting = append(waiting, r.target)
+						}
+					}
+					// the quiet client resumes
+					_, _ = conn.Write(t.Body[cut:])
+					_ = conn.SetReadDeadline(time.Now().Add(watchdog))
+					rsp, rerr := http.ReadResponse(bufio.NewReader(conn), nil)
+					if rerr == nil {
+						_, _ = io.Copy(io.Discard, rsp.Body)
+						rsp.Body.Close()
+					}
+					conn.Close()
+					bad := ""
+					if len(waiting) > 0 {
+						// were they merely slow, or really held up by the quiet client? ask again now that it is gone
+						var still []string
+						for _, v := range waiting {
+							hc := &http.Client{Timeout: watchdog, Transport: &http.Transport{DisableKeepAlives: true}}
+							r2, err := hc.Get("http://" + ch.addr + v)
+							if err != nil {
+								still = append(still, v)
+								continue
+							}
+							r2.Body.Close()
+						}
+						if len(still) == 0 {
+							bad = fmt.Sprintf("while one client was quiet in the middle of its request body, valid requests of another client got no answer within %s and were answered as soon as the first client went on: %v", watchdog, waiting)
+						} else {
+							bad = fmt.Sprintf("requests not answered within %s, also after the stalled client finished: %v", watchdog, still)
+						}
+					} else if rerr != nil {
+						bad = "the stalled request itself was never answered after its body was completed: " + rerr.Error()
+					}
+					if !ch.alive() {
+						bad = "the emulator process died: " + ch.newPanics()
+					} else if p := ch.newPanics(); p != "" && bad == "" {
+						bad = "handler panic: " + clipN(p, 900)
+					}
+					if bad == "" {
+						bad = ch.probe(idx)
+					}
+					if bad != "" {
+						run.Violation("stall", idx, bad+" | "+desc, map[string]any{"store": kind, "case": desc})
+						ch.stop()
+						ch, msg = c20gStart(fmt.Sprintf("st%d", ki), kind, scratch)
+						if ch == nil || ch.fixture() != "" {
+							return
+						}
+						_, uploadID, _ = ch.cl.ResumableInit(c20gB, []byte(`{"name":"res-live.bin"}`), nil, "")
+					}
+					run.Case(common.Hash64("stall", desc), true)
+					run.Count("stalled_requests", 1)
+					run.Count("victim_requests_answered_while_a_client_was_quiet", int64(len(victims)-len(waiting)))
+				}
+			}
+		}(ki, kind)
 	}
 	wg.Wait()
 }
